@@ -149,7 +149,7 @@ def kf_wcstombs_empty(case, o, kind, cfg, consts):
     # wcstombs_s: "l > 0 && l < dmax" -- a converted length of 0 (empty wide string, len = 0, or len smaller than the
     # first character) is reported as ESNOSPC
     m = case.meta
-    if not (m.get('cls') == 'conv' and m.get('op') == 'wcstombs' and kind in ('valid-rejected', 'query-length') and o.ret == '406'): return False
+    if not (m.get('cls') == 'conv' and m.get('op') in ('wcstombs', 'wcsrtombs') and kind in ('valid-rejected', 'query-length') and o.ret == '406'): return False
     chars = m.get('chars') or []
     if not chars: return True
     if m['kind'] == 'query': return False
@@ -158,3 +158,12 @@ def kf_wcstombs_empty(case, o, kind, cfg, consts):
 @pred
 def kf_wcstombs_len0(case, o, kind, cfg, consts):
     return False
+
+@pred
+def kf_wcsrtombs_noslack_unterminated(case, o, kind, cfg, consts):
+    # wcsrtombs_s success path: the terminator / slack clear is inside #ifdef SAFECLIB_STR_NULL_SLACK only; when libc stopped at len
+    # (no terminator stored) the no-slack build returns EOK with an unterminated dest
+    m = case.meta
+    if consts['null_slack'] or m.get('op') != 'wcsrtombs' or kind != 'wrong-conversion' or o.ret != '0': return False
+    nb = len(''.join(chr(c) for c in m['chars']).encode('utf-8'))
+    return m['len'] <= nb      # libc was stopped by len before it could store the terminator
